@@ -84,8 +84,8 @@ func c01run(focused bool) {
 	if focused {
 		narrow = verifParam("narrow", 1, 0) == 1
 	}
-	nTxs := verifParam("txs", 2, c01MaxTxs)
-	maxOps := verifParam("opsPerAction", 1, c01MaxOps)
+	nTxs := verifParam("txs", 2, 2)
+	maxOps := verifParam("opsPerAction", 1, 1)
 	parent := hIm{map[string][]byte{}}
 	refHas, refVal := false, byte(0)
 	if focused || verifChoose("parentHasKey", 2) == 1 {
